@@ -25,14 +25,18 @@ Theorem C34_quoting_switch_dispatch :
 Proof. exact quoting_switch_table. Qed.
 
 (* the hand-written per-byte rules of log_quoted_string and QuoteMimeBlob are what the functions compute
-   (tables regenerated from the real functions); the user-name quoting is QuoteMimeBlob *)
+   (tables regenerated from the real functions); the user-name quoting is QuoteMimeBlob followed by a pass that
+   rewrites every space to %20 (per byte: user_entry) *)
 Theorem C34_quoted_string_rule_matches_code : forall c, c < 256 -> c <> 0 ->
   lqs_entry c = tbl_entry bm_log_quoted_string c.
 Proof. exact lqs_entry_table. Qed.
 Theorem C34_mime_blob_rule_matches_code : forall c, c < 256 -> c <> 0 -> mime_entry c = tbl_entry bm_mimeblob c.
 Proof. exact mime_entry_table. Qed.
-Theorem C34_username_quoting_is_mime_blob : bm_username_quote = bm_mimeblob.
-Proof. exact username_table_is_mimeblob. Qed.
+Theorem C34_username_rule_matches_code : forall c, c < 256 -> c <> 0 -> user_entry c = tbl_entry bm_username_quote c.
+Proof. exact user_entry_table. Qed.
+Theorem C34_username_two_passes_are_per_byte_rule : forall s,
+  encode_spaces (mime_blob s) = concat (map user_entry (cstr s)).
+Proof. exact encode_spaces_mime_blob. Qed.
 
 (* ---- no quoted form contains a raw CR or LF (all inputs) ---- *)
 Theorem C34_quoted_string_no_line_break : forall s, forallb no_crlf (log_quoted_string s) = true.
@@ -76,11 +80,23 @@ Theorem C34_shell_delimited_and_reversible : forall s rest, cstr s <> [] ->
   read_shell_word (shell_quote s ++ 32 :: rest) = Some (cstr s, rest).
 Proof. exact shell_delimited. Qed.
 
-(* ---- the mime-blob style outside brackets: a space passes as it is, so a user name containing a space splits
-   the bare field of the built-in squid format (finding F11); what does hold: printable ASCII without
-   brackets ---- *)
-Theorem C34_mime_blob_bare_field_refuted :
-  mime_blob [97; 32; 98] = [97; 32; 98] /\ username_quote (Some [97; 32; 98]) = Some [97; 32; 98].
+(* ---- the user-name field of the built-in squid format (Format::QuoteUrlEncodeUsername as repaired by /repo
+   a257b3d; former finding F11): for EVERY user name the logged form contains no space, CR or LF, so the field
+   ends at the next space whatever follows, and it decodes back to the name; absent / empty names give no field
+   text (a dash is logged) ---- *)
+Theorem C34_username_field_delimited_and_reversible : forall name q rest, bytes_ok name ->
+  username_quote (Some name) = Some q ->
+  forallb user_out_ok q = true /\
+  read_until 32 (q ++ 32 :: rest) = Some (q, rest) /\
+  mime_decode q = Some (cstr name).
+Proof. exact username_field_delimited. Qed.
+Theorem C34_username_absent_or_empty : username_quote None = None /\ forall n, cstr n = [] -> username_quote (Some n) = None.
+Proof. exact username_absent. Qed.
+
+(* ---- what still deviates: the mime-blob style itself leaves a space as it is (documented: SP is not encoded), so a
+   custom logformat that uses a %[code OUTSIDE brackets gets a field that a value with a space splits; what does
+   hold for the style: printable ASCII without brackets (delimited inside brackets, above) ---- *)
+Theorem C34_mime_blob_bare_field_refuted : mime_blob [97; 32; 98] = [97; 32; 98].
 Proof. exact mime_passes_space. Qed.
 Theorem C34_mime_blob_bare_field_partial : forall s, bytes_ok s -> forallb mime_out_ok (mime_blob s) = true.
 Proof. exact mime_alphabet. Qed.
@@ -113,6 +129,9 @@ Example C34_example_record :
   protected_code (style_of None lq_enum_QUOTES) 1 = true /\
   log_record fmt = [34; 97;32;92;34; 34; 32; 91; 97;32;34; 93; 32; 97;37;50;48;37;50;50; 32; 45; 10].
 Proof. vm_compute. split; reflexivity. Qed.
+Example C34_example_username : username_quote (Some [97; 32; 98; 91]) = Some [97; 37;50;48; 98; 37;53;98] /\
+  bytes_ok [97; 32; 98; 91] /\ mime_decode [97; 37;50;48; 98; 37;53;98] = Some [97; 32; 98; 91].
+Proof. split; [reflexivity|]. split; [repeat constructor|reflexivity]. Qed.
 Example C34_example_hypotheses : bytes_ok [97; 32; 34] /\ cstr [97; 32; 34] <> [] /\
   protected_fmt lq_enum_NONE [FLit [34]; FCode None 1 (Some [10]) true; FLit [34]; FCode (Some 91) 5 (Some [10]) false].
 Proof.
@@ -122,7 +141,10 @@ Qed.
 Print Assumptions C34_quoting_switch_dispatch.
 Print Assumptions C34_quoted_string_rule_matches_code.
 Print Assumptions C34_mime_blob_rule_matches_code.
-Print Assumptions C34_username_quoting_is_mime_blob.
+Print Assumptions C34_username_rule_matches_code.
+Print Assumptions C34_username_two_passes_are_per_byte_rule.
+Print Assumptions C34_username_field_delimited_and_reversible.
+Print Assumptions C34_username_absent_or_empty.
 Print Assumptions C34_quoted_string_no_line_break.
 Print Assumptions C34_mime_blob_no_line_break.
 Print Assumptions C34_shell_no_line_break.
